@@ -419,26 +419,43 @@ func runBufFlag(c *core.Ctx) {
 		t := stripIface(v).Type()
 		return sx.IsNamed(t, errbasePath, "printer") || sx.IsNamed(t, errbasePath, "state")
 	}
-	sx.EachInstr(fr, func(in ssa.Instruction) {
-		call, ok := in.(*ssa.Call)
-		if !ok {
-			return
-		}
-		if callee := sx.Callee(call); callee != nil {
-			if callee.Name() == "formatSimple" {
-				hs = append(hs, handout{in, false, "formatSimple (plain text)"})
+	// the hand-outs of a function: dynamic calls that receive a printer; a static call of an unexported method of
+	// the same type (other than the recursion and collectEntry) stands for the hand-outs made inside it
+	var handoutsIn func(f *ssa.Function, at ssa.Instruction, depth int) []handout
+	handoutsIn = func(f *ssa.Function, at ssa.Instruction, depth int) []handout {
+		var out []handout
+		sx.EachInstr(f, func(in ssa.Instruction) {
+			call, ok := in.(*ssa.Call)
+			if !ok {
+				return
 			}
-			return
-		}
-		for _, a := range call.Call.Args {
-			switch {
-			case isSafePrinter(a):
-				hs = append(hs, handout{in, true, "safe printer to " + sx.TrimMod(sx.CalleeName(call))})
-			case isPlain(a):
-				hs = append(hs, handout{in, false, "plain printer/state to " + sx.TrimMod(sx.CalleeName(call))})
+			site := at
+			if site == nil {
+				site = in
 			}
-		}
-	})
+			if callee := sx.Callee(call); callee != nil {
+				if callee.Name() == "formatSimple" {
+					out = append(out, handout{site, false, "formatSimple (plain text)"})
+					return
+				}
+				if depth < 2 && callee != fr && callee != ce && callee.Blocks != nil && callee.Pkg == fr.Pkg && !sx.Exported(callee) &&
+					callee.Signature.Recv() != nil && types.Identical(callee.Signature.Recv().Type(), fr.Signature.Recv().Type()) {
+					out = append(out, handoutsIn(callee, site, depth+1)...)
+				}
+				return
+			}
+			for _, a := range call.Call.Args {
+				switch {
+				case isSafePrinter(a):
+					out = append(out, handout{site, true, "safe printer to " + sx.TrimMod(sx.CalleeName(call))})
+				case isPlain(a):
+					out = append(out, handout{site, false, "plain printer/state to " + sx.TrimMod(sx.CalleeName(call))})
+				}
+			}
+		})
+		return out
+	}
+	hs = handoutsIn(fr, nil, 0)
 	// the flag: second argument of the collectEntry call
 	var flag ssa.Value
 	sx.EachInstr(fr, func(in ssa.Instruction) {
